@@ -107,7 +107,9 @@ CLAIMED["C20"] = dict(
          "is never run by two threads, no continuation without a resume call, only the chains A->S->N->A and A->N->S->N->A occur for "
          "handed-out points, the enclosing wait cannot complete while a covered task is suspended, owner recall once. Tie: generated enum "
          "values, E-SHIM on the whole instrumented runtime with real ucontext switches; every state-word event is validated as an enabled "
-         "model step; independent monitors (continuation count, ordering, deadlock/livelock).",
+         "model step; independent monitors (continuation count, ordering, deadlock/livelock); scenario families incl. suspension inside "
+         "isolate, single-thread arenas, nested waits on coroutines, resumers that exist before the suspension, the resume-versus-sleep "
+         "window, and cancellation of the suspended task's group before resume.",
     note="Trusted: Lean kernel, standard axioms, E-SHIM runtime, harness/c20, sampled correspondence. The register save/restore of the stack "
          "switch itself is not modelled. API precondition (each suspend point resumed exactly once) is an explicit model guard.",
     technique="Lean 4 proof (N-thread inductive invariant over the handshake protocol) + E-SHIM trace validation with targeted resume windows",
@@ -160,8 +162,11 @@ CLAIMED["C19"] = dict(
          "its winner and the flag returns to uninitialized so a later/concurrent caller retries, helper counts never carry into the pointer "
          "bits and the runner is never used after destruction; enumerable_thread_specific: one create_local per thread, every lookup returns "
          "the thread's own element, no sharing, the open-addressing probe invariant and load <= 1/2 hold, growth preserves all slots, "
-         "iteration visits each element once. Tie: generated constants, E-SHIM access-level replay of the state word / slot claims on the "
-         "models, independent monitors, directed 130-caller saturation schedule, real-library runs.",
+         "iteration visits each element once; across the container's lifecycle (clear, destroy + re-create, move-assignment of a fresh "
+         "container) for both key kinds every local() returns the caller's own element of the current generation — over lifecycle statement "
+         "sequences and the internal_swap fact (the native TLS key travels with the table and the elements) regenerated from the header. Tie: "
+         "generated constants and lifecycle facts, E-SHIM access-level replay of the state word / slot claims on the models, lifecycle "
+         "scenarios replayed on the lifecycle model, independent monitors, directed 130-caller saturation schedule, real-library runs.",
     note="Trusted: Lean kernel, standard axioms, E-SHIM, harness/c19 (harness-local r1 stubs keep the dispatcher's exception protocol), sampled "
          "correspondence. With more than 128 callers the helper count can carry into the runner pointer (proved for the model, reproduced on "
          "the header; outside the property's 2-8 thread quantifier, recorded as an observation).",
@@ -211,12 +216,15 @@ CLAIMED["C17"] = dict(
 CLAIMED["C18"] = dict(
     text="Lean 4 theorems over guards regenerated from the source text: calloc rejects exactly when nobj*size >= 2^64, the large-object size "
          "computation returns null before allocating whenever size+headers+alignment or its bin rounding reaches 2^64 and otherwise is the "
-         "true rounding, aligned sums cannot wrap, EINVAL exactly for non-powers-of-two, pool ledger (blocks inside owned regions, a region "
-         "is returned at most once). Tie: boundary differential near SIZE_MAX against the real code, fault enumeration on the real library "
-         "(k-th raw callback / mmap fails: one-shot, windowed, persistent, with recovery) with ledger validation, standing probes for the "
-         "three repaired defects.",
+         "true rounding, the mremap path of realloc (Backend::remap) rejects whenever newSize + the object's offset in its region or its bin "
+         "rounding reaches 2^64 and otherwise re-maps exactly the rounded size, aligned sums cannot wrap, EINVAL exactly for non-powers-of-two, "
+         "pool ledger (blocks inside owned regions, a region is returned at most once). Tie: boundary differential near SIZE_MAX against the "
+         "real code, realloc of slab / large / lone-region objects to unrepresentable sizes, fault enumeration on the real library (k-th raw "
+         "callback / mmap fails: one-shot, windowed, persistent, with recovery; first-touch matrix: the first operation of a fresh thread on a "
+         "fresh or warm pool with the 1st..4th request it causes refused; default-pool traffic interleaved with pool requests) with ledger "
+         "validation, standing probes for the repaired defects.",
     note="Trusted: Lean kernel, standard axioms, checks/cexpr.py, harness/c18 (interposed mmap/munmap, pool callbacks), sampled correspondence. "
-         "The back-end retry ladder is explored, not modelled. Three genuine defects found by this check were repaired (fixed: lines).",
+         "The back-end retry ladder is explored, not modelled. Four genuine defects found by this check were repaired (fixed: lines).",
     technique="Lean 4 proof (64-bit wrap-around arithmetic over regenerated guards; ledger spec) + fault enumeration + differential",
     design="§3 C18")
 
